@@ -83,15 +83,46 @@ PROPS = {
         "assumptions": ["model ⊑ reference is a theorem (every byte string); code ~ model is the LEX channel and code ~ reference the SPEC channel, on the explored inputs"],
     },
     "C19": {
-        "module": "MF.Props.C19",
-        "theorems": ["MF.Props.C19.doc_readable", "MF.Props.C19.pos_go_eq_doc", "MF.Props.C19.walk_go_eq_fields",
-                     "MF.Props.C19.all_kinds_covered", "MF.Props.C19.emit_correct", "MF.Props.C19.emit_complete"],
-        "channels": ["TREE"],
+        "module": 'MF.Props.C19',
+        "theorems": ['MF.Props.C19.doc_readable',
+            'MF.Props.C19.pos_go_eq_doc',
+            'MF.Props.C19.walk_go_eq_fields',
+            'MF.Props.C19.all_kinds_covered',
+            'MF.Props.C19.emit_correct',
+            'MF.Props.C19.emit_complete',
+            'MF.Props.C19.sql_bridge_expr',
+            'MF.Props.C19.pos_bridge_expr',
+            'MF.Props.C19.pos_doc_bridge_expr',
+            'MF.Props.C19.prec_bridge',
+            'MF.Props.C19.sql_bridge_type',
+            'MF.Props.C19.pos_bridge_type',
+            'MF.Props.C19.pos_doc_bridge_type',
+            'MF.Props.C19.sql_bridge_field',
+            'MF.Props.C19.pos_bridge_field',
+            'MF.Props.C19.sql_bridge_needs_wf',
+            'MF.Props.C19.pos_bridge_needs_wf',
+            'MF.Props.C19.parsed_wfBridge',
+            'MF.Props.C19.parsed_wfBridgeT',
+            'MF.Props.C19.sql_bridge_parsed',
+            'MF.Props.C19.pos_bridge_parsed',
+            'MF.Props.C19.sql_bridge_parsed_type',
+            'MF.Props.C19.pos_bridge_parsed_type'],
+        "channels": ['TREE', 'BRIDGE'],
         "pred": True,
-        "level": "proof",
-        "trusted_base": ["tools/extract: ast/ast.go (structs, `// pos =`/`// end =` lines via its own POS parser), ast/pos.go, ast/walk_internal.go read into Lean tables on every run; validated by the TREE channel (tables + interpreters reproduce Go's Pos()/End()/Walk on every explored node)",
-                         "MF/Model/PosLang.lean: transcription of tools/util/poslang (interpreter, emitter) and of ast/pos_util.go"],
-        "assumptions": ["the byte-for-byte clause and the EvalPos-vs-compiled clause are finite computations done by the harness on this run (generators executed from the working tree; every node of every explored input)"],
+        "level": 'proof',
+        "trusted_base": ['tools/extract: ast/ast.go (structs, `// pos =`/`// end =` lines via its own POS parser), ast/pos.go, ast/walk_internal.go read into Lean tables on every run; validated by the '
+            "TREE channel (tables + interpreters reproduce Go's Pos()/End()/Walk on every explored node)",
+            'MF/Model/PosLang.lean: transcription of tools/util/poslang (interpreter, emitter) and of ast/pos_util.go',
+            'bridge: MF/Model/Bridge.lean toNodeP / toNodeT (typed fragment tree -> generic tree), validated by the BRIDGE channel: for every accepted input of the EXPRPOS and TYPE '
+            "generators the rendering of toNode*(model parse) equals Go's reflective dump of memefish.ParseExpr / ParseType node for node (kind, every scalar field, every child with field "
+            "name and index, and Go's own Pos() End() SQL() against the generic interpreters on the regenerated tables); MF/Model/Print.lean (generic printer DSL), validated by TREE"],
+        "assumptions": ['bridge theorems (sql_bridge_*, pos_bridge_*): the hand-written printers sqlE / sqlT / sqlF and position formulas posP / endP / posT / endT / posF / endF of the fragment models '
+            'ARE the generic interpreters applied to the tables regenerated from ast/sql.go, ast/pos.go, ast/ast.go on this run, for every tree with non-empty identifiers and non-empty paths '
+            '(necessary: *_needs_wf; true of every parsed tree: parsed_wfBridge*). They go through one kernel-decided row lemma per node kind (row_K / prow_K / prec_K in '
+            'MF/Proofs/BridgeSqlKinds.lean, BridgePosKinds.lean): a change of one of these SQL() bodies, Pos()/End() methods, of exprPrec or paren breaks the build of MF.Props.C19Bridge',
+            'the byte-for-byte clause and the EvalPos-vs-compiled clause are finite computations done by the harness on this run (generators executed from the working tree; every node of '
+            'every explored input)'],
+        "module_extra": ['MF.Props.C19Bridge', 'MF.Props.C19BridgeParsed'],
     },
     "C17": {
         "module": "MF.Props.C17",
